@@ -35,6 +35,8 @@ def r1(ctx):
 @rule("C05", "R2", "AGREE", "table cell (p, k) is the scalar kernel on row p and on mu[k], Theta[k], logdet[k] with one k", floor=5)
 def r2(ctx):
     ana = ctx.ana
+    from . import c01
+    ctx.sub(c01.r9, only=("handover:cost",))      # "the table that drives label assignment" is minus this table as it stands (not clamped, capped or rescaled)
     fi = ana.func(LK + "all_points_all_clusters_log_likelihood_fast")
     scalar = ana.func(LK + "point_log_likelihood_fast")
     b = ana.builder(fi, no_inline=ana.known)
